@@ -14,13 +14,13 @@ RULE = ("worlds with max_recompute in {None,1,2,3,7}, idle stretches, sessions f
         "calls the party scribbles over every object it was handed; non-trivial = >=1 timer-only invocation and >=1 "
         "mutation fault; distinct = per-period history signature")
 PROBES = ["timer_only_call", "mutation", "session_finished_early_hidden", "third_period_pilots", "resumed", "paired_run",
-          "arrival_this_period_seen", "departure_this_period_hidden", "infra_seen_after_reconfig"]
+          "arrival_this_period_seen", "departure_this_period_hidden", "infra_seen_after_reconfig", "custom_event_with_builtin"]
 FAULT_DIMENSION = ("party mutates handed SessionInfo / InfrastructureInfo / Constraint objects; scheduler crash + rerun; "
                    "operator changes a constraint limit between two periods (the scheduler must see the new, true limits)")
 ASSUMPTIONS = ["'handed' = argument of schedule(), results of active_sessions(), infrastructure_info(), get_constraints()",
                "truth for delivered energy/rates/pilots is the end-of-period tap of the previous period"]
 
-PROFILE = world.profile(reconfig=0.25, faults={"mutate": 1.2, "crash": 0.3}, resume_modes=["rerun"],
+PROFILE = world.profile(reconfig=0.25, custom_events=0.25, faults={"mutate": 1.2, "crash": 0.3}, resume_modes=["rerun"],
                         max_recompute=[None, 1, 2, 3, 7], horizon=(6, 36), chain_fill=(0.2, 0.8), b2b=0.3,
                         demand=(0.02, 1.2), party={"scripted": 4, "uncontrolled": 2, "greedy": 3, "rr": 1},
                         evse_kinds={"cont": 4, "dead": 2, "finite": 3})
@@ -61,11 +61,14 @@ def check(sc):
     timer_only = [t for t in exp_calls if t not in ev and not (t == 0 and mr is not None)]
     out.probe("timer_only_call", len([t for t in exp_calls if t not in ev]))
     out.probe("mutation", tr.fault_counts.get("mutate", 0))
+    out.probe("custom_event_with_builtin", sum(1 for e in sc["extra_events"] if e.get("type") == "Event"))
     out.probe("resumed", len(tr.resumes))
     out.nontrivial = any(t not in ev for t in exp_calls) and tr.fault_counts.get("mutate", 0) > 0
     # (a) invocation times
     want = [t for t in exp_calls if t < n_periods] if not ok else exp_calls
-    if got != want:
+    if world.ambiguous_periods(sc):
+        out.inconclusive += 1          # a period holding only a user-defined Event: not judged (see world.ambiguous_periods)
+    elif got != want:
         extra = [t for t in got if t not in want]
         missing = [t for t in want if t not in got]
         dup = sorted({t for t in got if got.count(t) > 1})
